@@ -248,7 +248,7 @@ def get_cycle_vector_from_waveform(imf, cycle_start='peaks'):
     """
     ASSUMING LOCALLY SYMMETRICAL SIGNALS!!
     """
-    imf = ensure_1d_with_singleton([imf], ['imf'], 'get_cycle_vector_from_waveform')
+    imf = ensure_2d([imf], ['imf'], 'get_cycle_vector_from_waveform')
 
     if cycle_start == 'desc':
         print("'desc' is Not implemented yet")
